@@ -340,7 +340,19 @@ class State:
             self.viol.append({"key": key, "msg": msg, "witness": w})
 
     def root(self, L):
-        return self.mt.get_merkle_root(list(L))
+        # the caller's list object is handed over, kept, and handed over again: computing a commitment must neither change
+        # the list it is computed from nor give another value the second time
+        arg = list(L)
+        r = self.mt.get_merkle_root(arg)
+        self.c_extra["argument_lists_rechecked"] = self.c_extra.get("argument_lists_rechecked", 0) + 1
+        if arg != list(L):
+            self.v("commitment-function-changes-the-list-it-is-given", "after get_merkle_root the caller's list of %d ids has %d "
+                   "entries%s" % (len(L), len(arg), "" if len(arg) != len(L) else " in another order"), {"list": [x.hex() for x in L]})
+            return r
+        if self.mt.get_merkle_root(arg) != r:
+            self.v("commitment-depends-on-earlier-calls", "get_merkle_root gives another value when called again on the same list "
+                   "(len %d)" % len(L), {"list": [x.hex() for x in L]})
+        return r
 
     def check_pair(self, L, M, name):
         kind = name.split("@")[0]
@@ -364,8 +376,12 @@ class State:
         mt = self.mt
         self.lists += 1
         r = self.root(L)
-        tree = mt.get_merkle_tree(list(L))
+        arg = list(L)
+        tree = mt.get_merkle_tree(arg)
         w = {"list": [x.hex() for x in L]}
+        if arg != list(L):
+            self.v("commitment-function-changes-the-list-it-is-given", "after get_merkle_tree the caller's list of %d ids has %d "
+                   "entries" % (len(L), len(arg)), w)
         if tree.hash() != r:
             self.v("two-root-implementations-disagree", "tree.hash() != get_merkle_root (len %d)" % len(L), w)
         if r != ref.merkle_root(L):
